@@ -143,6 +143,10 @@ where
 
         if let Some(captures) = diff_pattern.captures(&line) {
             current_file = Some(captures.get(1).unwrap().as_str().to_owned());
+        } else if line.starts_with("+++") && line[3..].starts_with(char::is_whitespace) {
+            // A file header whose path has fewer than `skip_prefix` components: its
+            // hunks must not be attributed to the previous file.
+            current_file = None;
         }
 
         let file = match current_file {
